@@ -1,4 +1,5 @@
 import JsightVerif.Model.Paste
+import JsightVerif.Proofs.TreeInv
 /-
   C10 — PASTE is transparent (shape level).  `expandList` is a hand model of the recursion of
   core/compile_core_paste.go over plain trees (context re-resolution is the C11 model).  What is
@@ -62,5 +63,104 @@ theorem undefined_macro_fails (ms : List (String × List Node)) (n : Nat) (m : S
 example : expandList [("a", [.paste "b"]), ("b", [.paste "a"])] 50 [.paste "a"] = none := by decide
 /-- non-vacuity: a macro used twice, defined after its use -/
 example : (expandList [("m", [.dir "200" []])] 10 [.dir "GET" [.paste "m"], .dir "POST" [.paste "m"]]).map pasteFreeList = some true := by decide
+
+/-! ### the same for the model that is compared with the real builder (Model/Build.lean, op `cat`) -/
+
+section Tied
+open JsightVerif.Model JsightVerif.Model.Build JsightVerif.Gen
+
+/-- not a PASTE -/
+def notPaste (d : Dir) : Bool := d.kind != .Paste
+
+/-- processPaste (with context re-resolution on the zipper) only ever puts directives that are not
+    PASTE into the new forest: whatever the macros, the call graph and the fuel -/
+theorem paste_keeps_notPaste (ms : List (Bytes × DT)) (n : Nat) :
+    (∀ ts s s', s.ctx.allC notPaste = true → pasteList ms n ts s = .ok s' → s'.ctx.allC notPaste = true) ∧
+    (∀ t s s', s.ctx.allC notPaste = true → pasteNode ms n t s = .ok s' → s'.ctx.allC notPaste = true) := by
+  induction n with
+  | zero =>
+    constructor
+    · intro ts s s' hs h; simp only [pasteList] at h; cases h; exact hs
+    · intro t s s' hs h; simp only [pasteNode] at h; cases h; exact hs
+  | succ n ih =>
+    constructor
+    · intro ts s s' hs h
+      cases ts with
+      | nil => simp only [pasteList] at h; cases h; exact hs
+      | cons t rest =>
+        simp only [pasteList] at h
+        cases ht : pasteNode ms n t s with
+        | error e => simp [ht] at h
+        | ok s1 =>
+          simp only [ht] at h
+          exact ih.1 rest s1 s' (ih.2 t s s1 hs ht) h
+    · intro t s s' hs h
+      obtain ⟨d, kids⟩ := t
+      simp only [pasteNode] at h
+      by_cases hk : (d.kind == Kind.Paste) = true
+      · simp only [hk, if_true] at h
+        -- a call: the result is the state after pasting the macro body
+        split at h
+        · cases h
+        · rename_i s'' hin
+          cases h
+          split at hin
+          · cases hin
+          · split at hin
+            · cases hin
+            · split at hin
+              · cases hin
+              · split at hin
+                · cases hin
+                · rename_i enums _
+                  exact ih.1 _ { ctx := s.ctx, enums := enums } _ hs hin
+      · simp only [hk, Bool.false_eq_true, if_false] at h
+        cases ha : attach s.ctx d d.head with
+        | error e => simp [ha] at h
+        | ok ctx' =>
+          simp only [ha] at h
+          have hd : notPaste d = true := by simpa [notPaste] using hk
+          have hc' : ctx'.allC notPaste = true := attach_all notPaste s.ctx d d.head ctx' hd hs ha
+          cases hp : pasteList ms n kids { s with ctx := ctx' } with
+          | error e => simp [hp] at h
+          | ok s1 =>
+            simp only [hp] at h
+            have h1 := ih.1 kids { s with ctx := ctx' } s1 hc' hp
+            split at h
+            · cases h; exact closeTo_all notPaste _ _ _ h1
+            · cases h; exact h1
+
+/-- the stages of `build` a successful run went through -/
+theorem build_stages (roots : List DT) (rootFile : Bytes) (banned : List Kind)
+    (content : Bytes → Bytes) (b : Built) (h : build roots rootFile banned content = .ok b) :
+    ∃ ms dirs fuel ps, collectMacro roots [] [] = .ok (ms, dirs) ∧ pasteList ms fuel dirs {} = .ok ps ∧
+      b.expanded = ps.ctx.forest := by
+  unfold build at h
+  cases hcm : collectMacro roots [] [] with
+  | error e => simp [hcm] at h
+  | ok r =>
+    obtain ⟨ms, dirs⟩ := r
+    simp only [hcm] at h
+    cases hrec : checkRecursion ms with
+    | error e => simp [hrec] at h
+    | ok u =>
+      simp only [hrec] at h
+      cases hp : pasteList ms ((ms.length + 2) * (sizeList roots + 2) * (sizeList roots + 2) + 16) dirs {} with
+      | error e => simp [hp] at h
+      | ok ps =>
+        simp only [hp] at h
+        refine ⟨ms, dirs, _, ps, rfl, hp, ?_⟩
+        repeat' split at h
+        all_goals first | (cases h; rfl) | cases h
+
+/-- **C10 (tied model)**: whenever the build model accepts a project, the forest the catalog is built
+    from contains no PASTE directive: every call has been replaced by directives. -/
+theorem C10_expanded_paste_free (roots : List DT) (rootFile : Bytes) (banned : List Kind)
+    (content : Bytes → Bytes) (b : Built) (h : build roots rootFile banned content = .ok b) :
+    Tree.allList notPaste b.expanded = true := by
+  obtain ⟨ms, dirs, fuel, ps, _, hp, he⟩ := build_stages roots rootFile banned content b h
+  rw [he]
+  exact forest_all notPaste ps.ctx ((paste_keeps_notPaste ms fuel).1 dirs {} ps rfl hp)
+end Tied
 
 end JsightVerif.Props.C10
